@@ -41,7 +41,18 @@ pub const RANGE_EDGES: &[&str] = &[
 
 pub const KV_EDGES: &[&str] = &["a=b", "=", "a=", "=b", "a=b=c", "novalue", "", "rating=5", "x= spaced ", "\u{e4}=\u{f6}"];
 
+/// Strings whose Unicode case mapping changes their UTF-8 length (K KELVIN 3->1, I-dot 2->3, OHM 3->2,
+/// ANGSTROM 3->2, capital sharp s 3->2, A-stroke 2->3), combined with the separators decoders split at.
+pub const CASEMAP_EDGES: &[&str] = &[
+    "image/\u{212A};x", "\u{212A};", "a\u{212A}\u{212A};q=1", "\u{130};", "\u{130}\u{130}=\u{130}", "\u{2126};charset=x", "\u{212B}/\u{212B}; a",
+    "\u{1E9E}=\u{1E9E}", "\u{23A}\u{23A};\u{23A}", "x\u{212A}=y\u{212A}", "\u{212A}-\u{212A}", "\u{212A}:\u{130}", "IMAGE/PNG; Q=\u{212A}", "\u{fb01};\u{fb01}",
+    "\u{df};\u{df}", "\u{1c4}\u{1c5}\u{1c6};", "i\u{307};", "\u{3a3}\u{3c2};", "\u{10400};\u{10428}",
+];
+
 pub const TIME_EDGES: &[&str] = &[
+    "1900-02-29T00:00:00Z", "2100-02-29T12:30:00Z", "2000-02-29T23:59:59Z", "2023-02-29T00:00:00Z", "2024-02-29T00:00:00Z", "0000-02-29T00:00:00Z",
+    "2023-04-31T00:00:00Z", "2023-00-10T00:00:00Z", "2023-13-01T00:00:00Z", "2023-01-00T00:00:00Z", "2023-01-32T00:00:00Z", "2023-12-31T24:00:00Z",
+    "2023-12-31T23:60:00Z", "2023-12-31T23:59:61Z", "1700-02-29T01:02:03Z", "9999-02-29T00:00:00Z",
     "2020-06-12T17:53:00Z", "2016-12-31T23:59:60Z", "0000-01-01T00:00:00Z", "9999-12-31T23:59:59Z", "10000-01-01T00:00:00Z",
     "2020-06-12T17:53:00+02:00", "2020-06-12 17:53:00", "2020-13-40T25:61:61Z", "garbage", "", "2020-06-12T17:53:00.123456789Z",
     "-0001-01-01T00:00:00Z", "2020-02-30T00:00:00Z", "1970-01-01T00:00:00-00:00", "+262143-01-01T00:00:00Z",
@@ -501,6 +512,17 @@ pub fn field_value() -> impl Strategy<Value = String> {
         2 => (0..RANGE_EDGES.len()).prop_map(|i| RANGE_EDGES[i].to_string()),
         2 => (0..KV_EDGES.len()).prop_map(|i| KV_EDGES[i].to_string()),
         2 => (0..TIME_EDGES.len()).prop_map(|i| TIME_EDGES[i].to_string()),
+        2 => (0..CASEMAP_EDGES.len()).prop_map(|i| CASEMAP_EDGES[i].to_string()),
+        // timestamps of the canonical shape with every calendar edge
+        2 => (
+            prop_oneof![Just(1600u32), Just(1700), Just(1900), Just(2000), Just(2100), Just(2023), Just(2024), Just(0), Just(9999), 0..10_000u32],
+            0..14u32,
+            prop_oneof![3 => 28..33u32, 1 => 0..33u32],
+            0..25u32,
+            prop_oneof![Just(0u32), Just(59), Just(60)],
+            prop_oneof![Just(0u32), Just(59), Just(60), Just(61)],
+        )
+            .prop_map(|(y, mo, d, h, mi, s)| format!("{y:04}-{mo:02}-{d:02}T{h:02}:{mi:02}:{s:02}Z")),
         3 => "[0-9]{1,4}",
         1 => "[0-9]{1,3}\\.[0-9]{1,3}",
         2 => "[a-zA-Z0-9 ./=-]{0,16}",
@@ -551,6 +573,9 @@ fn shaped_block() -> impl Strategy<Value = Vec<(String, String)>> {
         // grouped list / count
         prop::collection::vec((prop_oneof![Just("Album"), Just("Artist"), Just("Title"), Just("songs"), Just("playtime"), Just("Genre")], v()), 1..10usize)
             .prop_map(|x| x.into_iter().map(|(k, v)| (k.to_string(), v)).collect()),
+        // picture chunk (the frame also gets a binary part with probability 0.2, see `strategy`)
+        (v(), v()).prop_map(|(size, ty)| vec![("size".to_string(), if size.is_empty() { "3".to_string() } else { size }), ("type".to_string(), ty)]),
+        (v()).prop_map(|ty| vec![("size".to_string(), "3".to_string()), ("type".to_string(), ty)]),
         // stickers / channels / playlists
         prop::collection::vec((prop_oneof![Just("sticker"), Just("file"), Just("channel"), Just("message"), Just("playlist"), Just("Last-Modified"), Just("tagtype"), Just("size"), Just("type"), Just("Id"), Just("updating_db")], v()), 1..8usize)
             .prop_map(|x| x.into_iter().map(|(k, v)| (k.to_string(), v)).collect()),
@@ -584,7 +609,7 @@ fn strategy(_tier: Tier) -> BoxedStrategy<Case> {
             1 => Just(Vec::new()),
             3 => prop::collection::vec(frame_fields(), 2..=9usize),
         ],
-        prop::option::weighted(0.2, prop::collection::vec(any::<u8>(), 0..20usize).prop_map(B)),
+        prop::option::weighted(0.35, prop::collection::vec(any::<u8>(), 0..20usize).prop_map(B)),
         any::<u16>(),
     )
         .prop_map(|(frames, binary, sel)| {
